@@ -72,7 +72,7 @@ def candidates(p):
             q = copy.deepcopy(p)
             q["stmt"]["callback"]["mutate"] = False
             yield q
-        if cb.get("style") not in ("pos", "kw"):
+        if cb.get("style") not in ("pos", "kw", "objfalsy"):
             q = copy.deepcopy(p)
             q["stmt"]["callback"]["style"] = "kw" if cb["style"].endswith("kw") else "pos"
             yield q
